@@ -18,7 +18,7 @@ contract(LV, 'IndexLevel.dtype_per_depth',
         'resolve_dtype_iter': dict(params=dict(it='elem'), order=['it'], result='elem', ensures=['result == ufe("resolved_over_all", it)']),
     },
     ghost_init=['j = 0'],
-    concrete_inputs='specs.t2_level:concrete_inputs', witness_on_unknown=True, requires_concrete=[], at_yield_concrete=['True'],
+    concrete_inputs='specs.t2_level:concrete_inputs', witness_on_unknown=True, witness_always=True, requires_concrete=[], at_yield_concrete=['True'],
     at_exit_concrete=['ref_dtype_per_depth(self, yields)'],
     n_loops=1,
     loops={0: dict(index='t', locals=dict(j='int'), ghost_mods=['j'], invariant=['j == t'])},
